@@ -104,3 +104,36 @@ func H_C19_epub_entry_modes() {
 	}
 	vReach("end")
 }
+
+// H_C15_epub_heading_options: EPUB Markdown shifts and caps heading levels like every other format.
+//
+//symgo:harness prop=C15 kernel=K3c-epub-heading-options
+//symgo:desc one chapter with a heading h1..h4 (enumerated) and a paragraph; MarkdownWithHeadingOptions with offset in {-1, 0, 2, 5} and maximum in {0 (none), 2, 6} (enumerated): exactly one ATX heading line, "#" x clamp(level + offset, 1, min(max or 6, 6)) + text
+func H_C15_epub_heading_options() {
+	lvl := vAnyIntIn(1, 4)
+	off := []int{-1, 0, 2, 5}[vAnyIntIn(0, 3)]
+	max := []int{0, 2, 6}[vAnyIntIn(0, 2)]
+	h := string(rune('0' + lvl))
+	r := &Reader{chapters: []*Chapter{{ID: "c1", Content: []byte(`<html><head><title>T</title></head><body><h` + h + `>HeadX</h` + h + `><p>Body text.</p></body></html>`)}}}
+	md, err := r.MarkdownWithHeadingOptions(ExtractOptions{}, off, max)
+	vAssert("markdown-no-error", err == nil)
+	want := lvl + off
+	if max > 0 && want > max {
+		want = max
+	}
+	if want < 1 {
+		want = 1
+	}
+	if want > 6 {
+		want = 6
+	}
+	n := 0
+	for _, ln := range strings.Split(md, "\n") {
+		if strings.HasPrefix(ln, "#") {
+			n++
+			vAssert("heading-level-is-shifted-and-capped", ln == strings.Repeat("#", want)+" HeadX")
+		}
+	}
+	vAssert("exactly-one-heading-line", n == 1)
+	vReach("end")
+}
